@@ -113,22 +113,22 @@ def guard_edges(body, leaf_pred, truth=True):
     return guard_edges_multi(body, [(leaf_pred, truth)])
 
 
-def guard_edges_multi(body, specs):
+def guard_edges_multi(body, specs, extra_edges=()):
     """CFG edges on which at least one of the (leaf_pred, truth) specs is known to hold — interprocedural (see
     guard_edges_ip) whenever the body belongs to a Program, so that moving a check into a helper does not hide it."""
     prog = getattr(body, "prog", None)
     if prog is not None:
-        return guard_edges_ip(prog, body, specs)
-    return _guard_edges_local(body, specs)
+        return guard_edges_ip(prog, body, specs, extra_edges=extra_edges)
+    return _guard_edges_local(body, specs, extra_edges)
 
 
-def _guard_edges_local(body, specs):
+def _guard_edges_local(body, specs, extra_edges=()):
     """CFG edges on which at least one of the (leaf_pred, truth) specs is known to hold.
     Handles negation wrappers, `Try::branch` (Continue arm = success when truth=True), and
     booleans materialised by `&&` / `||` (a bool local assigned in several blocks and switched
     on later): the edge L==v counts if every definition that can give L the value v either is a
     spec leaf with the right polarity or sits in a block already dominated by found edges."""
-    out = []
+    out = list(extra_edges)   # edges the caller has established by other means (e.g. discriminant tests)
     pending = []
     for bi, e, targets, otherwise in body.switch_edges():
         got = False
@@ -524,6 +524,22 @@ def _returns_guard_value(body, specs):
     return any(p(strip_wrappers(cur)) and pol == t for p, t in specs)
 
 
+def _guard_value_polarity(body, pred):
+    """True / False if the body's return value is exactly the guard `pred` / its negation; None otherwise"""
+    ds = body.defs().get(0, [])
+    if len(ds) != 1:
+        return None
+    bi, si, kind, payload = ds[0]
+    if kind == "call":
+        e = ("call", payload["f"].get("def", "?"), [body.expr(a) for a in payload["args"]], bi)
+    elif kind == "assign":
+        e = body.expr_rvalue(payload)
+    else:
+        return None
+    cur, pol = F.peel_polarity(e)
+    return pol if pred(strip_wrappers(cur)) else None
+
+
 def callee_ensures(prog, h, specs, depth=2):
     """every success return (true/Some/Ok) of function h is dominated by one of the guards"""
     hb = prog.bodies.get(h) or getattr(prog, "hidden", {}).get(h)
@@ -582,11 +598,11 @@ def _closures_in(e, depth=0):
     return out
 
 
-def guard_edges_ip(prog, body, specs, depth=2):
+def guard_edges_ip(prog, body, specs, depth=2, extra_edges=()):
     """guard_edges_multi plus: an edge on which a helper call returned true/Some/Ok counts when
     every success return of the helper (or of the closure given to Option::filter) is itself
     dominated by the guard — so moving a check into a helper does not hide it"""
-    out = list(_guard_edges_local(body, specs))
+    out = list(_guard_edges_local(body, specs, extra_edges))
     if depth < 0:
         return out
     for bi, e, targets, otherwise in body.switch_edges():
@@ -613,6 +629,17 @@ def guard_edges_ip(prog, body, specs, depth=2):
         elif cur[0] == "call" and _expr_ensures(prog, body, cur, specs, depth):
             tt, ft = F.bool_targets(targets, otherwise)
             succ_targets = tt if pol else ft
+        elif cur[0] == "call":
+            # a helper that *is* the guard (`fn over_budget(&self) -> bool { a > b }`): its value decides the guard both ways
+            hb = prog.bodies.get(cur[1]) or getattr(prog, "hidden", {}).get(cur[1])
+            if hb is not None and hb.local_ty(0) == "bool":
+                for p_, t_ in specs:
+                    q = _guard_value_polarity(hb, p_)
+                    if q is not None:
+                        # call value v == (guard if q else !guard); we want guard == t_  ->  v == (t_ if q else not t_)
+                        want_v = t_ if q else (not t_)
+                        tt, ft = F.bool_targets(targets, otherwise)
+                        succ_targets = (tt if want_v else ft) if pol else (ft if want_v else tt)
         if succ_targets:
             for t in succ_targets:
                 if (bi, t) not in out:
